@@ -460,7 +460,7 @@ def r16_1(ctx):
             for l in leaves:
                 if l.kind == "call" and l.callee() in line_src:
                     continue
-                if l.kind == "const" and (C.op_const(l.data) or "") == '""':
+                if is_empty_text(l):
                     continue
                 bad.append(l.describe())
             if bad:
@@ -501,7 +501,7 @@ def r16_2(ctx):
         n += 1
         leaves = pv.leaves(ri, t["args"][1])
         bad = [l.describe() for l in leaves if not ((l.kind == "call" and l.callee() in allowed) or
-                                                    (l.kind == "const" and (C.op_const(l.data) or "") == '""') or
+                                                    is_empty_text(l) or
                                                     (l.kind == "aggregate" and l.data["agg"].get("variant") == "None"))]
         if bad:
             ctx.violation([ri.name, "content", ";".join(sorted(set(bad)))[:160]], "the written content passes through %s (ordinary lines must be copied "
